@@ -553,3 +553,98 @@ def spec_c10(tier, seed):
                       'partial frame remain for it (also with a FOLLOWS fragment pending), a new request on the id is accepted, and both '
                       'tables are empty once the bystander finished.',
                       [{'frag': True}, {'req_follows': True}], base={'probe_reuse': True})
+
+
+def spec_c11(tier, seed):
+    q = tier == 'quick'
+    mixes = [(['rr', 'rs'], ['rr', 'rs']), (['rr', 'ch'], ['rr']), (['rs'], ['ch', 'rr']), (['rr', 'rs', 'ch'], ['rr', 'rs', 'ch'])]
+    if not q:
+        mixes += [([], ['rs', 'ch']), (['ch'], []), (['rs', 'rr'], ['ch', 'rs', 'rr']), (['ch', 'ch'], ['rs', 'rs'])]
+    parts = []
+    for role in ('server', 'client'):
+        for mi, (own, inb) in enumerate(mixes):
+            for mode in range(4):
+                if q and (mi + mode + (role == 'client')) % 2 == 1:
+                    continue
+                parts.append({'role': role, 'own': own, 'inb': inb, 'mode': mode, 'raising': False, 'frag_tail': True})
+        for mode in ((1,) if q else (0, 1, 2, 3)):
+            parts.append({'role': role, 'own': ['rr', 'rs'], 'inb': ['rs', 'rr'], 'mode': mode, 'raising': True, 'frag_tail': True})
+    return dict(
+        conds=[Cond('c11_connection_loss', 'c_cut', parts=parts, timeout=600),
+               Cond('c11_connection_loss', 'w_cut_inside_fragmented_frame', timeout=120)],
+        explanation='a real endpoint (server / client) on the REAL TransportTCP over a real asyncio.StreamReader, with own pending '
+                    'interactions (request-response future, stream subscription, channel with publisher) and peer-opened ones '
+                    '(handler future, recording publishers, optionally one whose cancel() raises); the inbound byte stream '
+                    '(requests, REQUEST_N, a 3-fragment PAYLOAD) is cut at a SYMBOLIC byte offset and followed by EOF / read '
+                    'error / application close() / failing write; after a symbolic settle time plus 3 s of virtual time: every '
+                    'interaction pending at the cut failed exactly once with a connection error, publishers and handler futures '
+                    'cancelled, on_close exactly once, nothing written afterwards (keep-alives included), tasks finished, no '
+                    'stream left',
+        bounds=['cut offset: every byte position of a ~200-byte inbound stream (symbolic)', '4 failure modes; %d (role, pending mix, mode) partitions' % len(parts),
+                '<= 3 own + <= 3 peer-opened pending interactions; settle time 0..5 s symbolic'],
+        outside=['more pending interactions, longer inbound streams, failures of the StreamWriter other than write()/drain() raising'],
+        functions=['rsocket.rsocket_base.RSocketBase._receiver', 'rsocket.rsocket_base.RSocketBase._receiver_listen', 'rsocket.rsocket_base.RSocketBase._on_connection_closed',
+                   'rsocket.rsocket_base.RSocketBase._stop_tasks', 'rsocket.rsocket_base.RSocketBase._sender', 'rsocket.rsocket_base.RSocketBase.close',
+                   'rsocket.stream_control.StreamControl.stop_all_streams', 'rsocket.rsocket_client.RSocketClient._close', 'rsocket.rsocket_client.RSocketClient._stop_tasks',
+                   'rsocket.rsocket_client.RSocketClient._reconnect_listener', 'rsocket.helpers.wrap_transport_exception', 'rsocket.helpers.cancel_if_task_exists',
+                   'rsocket.transports.tcp.TransportTCP.next_frame_generator', 'rsocket.transports.tcp.TransportTCP.serialize_partial', 'rsocket.frame_parser.FrameParser.receive_data'],
+        stubs=['S1', 'S2', 'S3', 'S4', 'S6', 'real TransportTCP + real StreamReader, recording StreamWriter stand-in', 'S8'],
+    )
+
+
+def spec_c12(tier, seed):
+    q = tier == 'quick'
+    lens = range(6, 15) if q else range(0, 21)
+    l1 = []
+    for ft in (0, 2, 3, 4, 5, 6, 7, 8, 9, 10, 12, 13, 14, 15, 62, 63):
+        for n in lens:
+            if q and ft in (0, 15, 62) and n not in (6, 10):
+                continue
+            l1.append({'ft': ft, 'len': n})
+    for shape in ([0, 0, 3, 3], [1, 2, 3, 1], [0, 0, 0, 0], [0, 0, 127, 200], [1, 4, 1, 6]):
+        for n in ((18, 24, 30) if q else (6, 12, 17, 18, 19, 20, 24, 26, 30, 36)):
+            l1.append({'ft': 1, 'len': n, 'setup_shape': shape})
+    for code in (0x001, 0x002, 0x003, 0x004, 0x101, 0x102, 0x201, 0x202, 0x203, 0x204, 0xFFFFFFFF, 0x0, 0x999, 0x7FFFFFFF):
+        for n in ((10, 12) if q else (9, 10, 11, 14, 20)):
+            l1.append({'ft': 11, 'len': n, 'code': code})
+    l1 += [{'ft': 10, 'len': n} for n in (0, 1, 3, 5)]          # shorter than a header
+    l2 = [{'ctx': c, 'role': r, 'ft2': f} for c in range(5) for r in ('server', 'client') for f in range(14)
+          if not q or (c + f + (r == 'client')) % 2 == 0]
+    if not q:
+        l2 += [{'ctx': 0, 'role': 'server', 'ft2': f, 'second': True, 'ft3': g} for f in range(14) for g in range(14)]
+    entries = ('on_setup', 'request_response', 'request_stream', 'request_channel', 'request_fire_and_forget', 'on_metadata_push', 'on_error')
+    app = [{'adapter': a, 'entry': e} for a in ('plain', 'reactivex', 'rx') for e in entries]
+    return dict(
+        conds=[
+            STUBVAL,
+            Cond('c12_hostile', 'c_bytes_to_frames', parts=l1, backends=('model',), timeout=300),
+            Cond('c12_hostile', 'c_frames_to_endpoint', parts=l2, timeout=400),
+            Cond('c12_hostile', 'c_app_failure', parts=app, timeout=300),
+            Cond('c04_chunking', 'c_message', parts=[{'lm': 0}], timeout=60),
+        ],
+        explanation='two layers joined by the predicate "well-shaped frame object". Layer 1: ARBITRARY frame bodies (symbolic '
+                    'bytes, one process per frame-type id and length; the 14 valid ids and 0/15/62/63 for unknown types) through '
+                    'the real FrameParser.receive_data + parse_or_ignore + all 14 parse methods in both framings: terminates, '
+                    '<= 1 object, well-shaped, nothing raised, buffer empty. Layer 2: after five contexts one fully symbolic '
+                    'well-shaped frame (14 types x 5 stream-id classes x all flags x 32-bit n x all error codes), produced by real '
+                    'serialize -> parse, reaches a real server / client; a probe request on a fresh id is answered, tasks alive, '
+                    'reactions are only ERRORs on the offending stream or legitimate replies. Failing application code: every '
+                    'handler entry point x 5 failure manners x {plain, reactivex, Rx} adapters: ERROR on that stream only, other '
+                    'stream still served. The empty message (message transports) terminates.',
+        bounds=['layer 1: body lengths %s; claimed metadata length <= 64, token length <= 8, MIME lengths fixed per process (unchecked slice bounds are enumerated by the engine)' % ([min(lens), max(lens)],),
+                'layer 1 runs under the cbitstruct model back end S5 (header unpacking stays symbolic there); ERROR code field one value per process (14 values incl. invalid ones)',
+                'layer 2: one hostile frame (thorough: two, all type pairs) after 5 contexts, both roles',
+                'application failures: 7 entry points x 5 manners x 3 adapters'],
+        outside=['bodies longer than 20 bytes (only the copied payload grows)', 'claimed lengths between the bound and the field maximum',
+                 'native header parser on arbitrary bytes (it ORs two symbolic integers, which the engine realises)'],
+        functions=['rsocket.frame_parser.FrameParser.receive_data', 'rsocket.frame.parse_or_ignore', 'rsocket.frame.parse_header_cbitstruct',
+                   'rsocket.frame.SetupFrame.parse', 'rsocket.frame.LeaseFrame.parse', 'rsocket.frame.KeepAliveFrame.parse', 'rsocket.frame.RequestResponseFrame.parse',
+                   'rsocket.frame.RequestStreamFrame.parse', 'rsocket.frame.RequestChannelFrame.parse', 'rsocket.frame.RequestNFrame.parse', 'rsocket.frame.CancelFrame.parse',
+                   'rsocket.frame.PayloadFrame.parse', 'rsocket.frame.ErrorFrame.parse', 'rsocket.frame.MetadataPushFrame.parse', 'rsocket.frame.ResumeFrame.parse',
+                   'rsocket.frame.ResumeOKFrame.parse', 'rsocket.frame.FrameType.from_id', 'rsocket.rsocket_base.RSocketBase._receiver_listen',
+                   'rsocket.rsocket_base.RSocketBase._handle_next_frame', 'rsocket.rsocket_base.RSocketBase.send_error', 'rsocket.frame.exception_to_error_frame',
+                   'rsocket.handlers.request_response_responder.RequestResponseResponder.future_done', 'rsocket.reactivex.reactivex_handler_adapter.ReactivexHandlerAdapter.request_response',
+                   'rsocket.rx_support.rx_handler_adapter.RxHandlerAdapter.request_response', 'rsocket.streams.stream_from_generator.StreamFromGenerator.queue_next_n'],
+        stubs=['S1', 'S2', 'S3', 'S5 (validated)', 'S6', 'S7 SimTransport', 'S8 failing application code'],
+        technique_extra='; stub translation validation by differential execution',
+    )
